@@ -117,6 +117,24 @@ def rule_verdict_shape(ctx, rid="R4.2"):
             if x.kind == "raise":
                 ok = False
             todo.extend(y for (l, y) in x.succ if l != "exc")
+    if not ok:
+        # equivalent form: e = next(<iter_errors(...)>, None); if e is not None: raise e
+        raises = [n for n in cfg.live if n.kind == "raise" and isinstance(n.ast, ast.Raise) and isinstance(n.ast.exc, ast.Name)]
+        if len(raises) == 1 and not loops:
+            ev = raises[0].ast.exc.id
+            rd = reaching_defs(cfg)
+            preds = raises[0].pred
+            guarded = bool(preds) and all(p.kind == "test" and ((norm(p.ast) == "%s is not None" % ev and l == "true") or (norm(p.ast) == "%s is None" % ev and l == "false"))
+                                          for (l, p) in preds)
+            defs = [cfg.nodes[d] for d in rd[raises[0].id].get(ev, ())]
+            if guarded and len(defs) == 1 and isinstance(defs[0].ast, ast.Assign):
+                v = defs[0].ast.value
+                if isinstance(v, ast.Call) and norm(v.func) == "next" and len(v.args) == 2 and isinstance(v.args[1], ast.Constant) and v.args[1].value is None:
+                    src = v.args[0]
+                    if isinstance(src, ast.Name):
+                        sd = [cfg.nodes[d] for d in rd[defs[0].id].get(src.id, ())]
+                        src = sd[0].ast.value if len(sd) == 1 and isinstance(sd[0].ast, ast.Assign) else None
+                    ok = isinstance(src, ast.Call) and norm(src.func).endswith("iter_errors")
     if ok:
         r.ok(site(f), "raises the loop variable in the first iteration, unconditionally; nothing otherwise")
     else:
